@@ -29,7 +29,8 @@ import multiprocessing
 
 VERIF = os.path.dirname(os.path.dirname(os.path.abspath(__file__)))
 REPO = os.path.abspath(os.environ.get("VERIF_REPO", "/repo"))
-OUT = os.path.join(VERIF, "out")
+OUT = os.environ.get("XV_OUT") or os.path.join(VERIF, "out")
+EVID = os.environ.get("XV_EVIDENCE_DIR") or os.path.join(VERIF, "evidence")
 MAX_SAMPLES = 10
 MAX_VIOLATIONS_PER_PHASE = 3
 
@@ -602,8 +603,8 @@ def _run_check(pid, args, seed, t0):
         "wall_s": round(time.time() - t0, 2),
         "violations": len(violations),
     }
-    os.makedirs(os.path.join(VERIF, "evidence"), exist_ok=True)
-    with open(os.path.join(VERIF, "evidence", f"{pid}.json"), "w") as f:
+    os.makedirs(EVID, exist_ok=True)
+    with open(os.path.join(EVID, f"{pid}.json"), "w") as f:
         json.dump(evidence, f, indent=1, sort_keys=True, default=repr)
 
     print(f"{pid} tier={tier} seed={seed} evaluations="
